@@ -137,7 +137,7 @@ fn consume(w: &W, id: u32, mut it: Box<dyn Iterator<Item = (St, Act)> + Send>, e
 
 pub fn execute(c: &GCfg, seed: u64) -> W {
     let ctx = Ctx::new(ScriptSrc::Table(c.scripts.clone()), 1, seed, c.perturb, true);
-    let w = W::new(ctx, vec![StoreCfg { policy: c.policy, cap: c.cap, n_red: c.n_red, n_mw: c.n_mw, name: "rsvg".into() }]);
+    let w = W::new(ctx, vec![StoreCfg { policy: c.policy, cap: c.cap, n_red: c.n_red, n_mw: c.n_mw, name: "rsvg".into(), ctor: 0 }]);
     // sentinel: its on_unsubscribe is the last thing the reducer loop does
     let sentinel_unsub = Arc::new(Counter::new());
     let notified = Arc::new(Counter::new());
@@ -333,7 +333,7 @@ pub fn run_witness(seed: u64, index: u64) -> Outcome {
         0 => {
             // F4 / C09: gated S1 registered first, unsubscribe S2 while S1 is parked in on_notify
             let ctx = Ctx::new(ScriptSrc::Table(vec![Script::plain()]), 1, seed, 0, false);
-            let w = W::new(ctx, vec![StoreCfg { policy: POL_BLOCK, cap: 4, n_red: 1, n_mw: 0, name: "rsvw".into() }]);
+            let w = W::new(ctx, vec![StoreCfg { policy: POL_BLOCK, cap: 4, n_red: 1, n_mw: 0, name: "rsvw".into(), ctor: 0 }]);
             let (_s1, _k1) = w.add_direct(0, 0, true, true, false);
             let (s2, k2) = w.add_direct(0, NOGATE, false, true, false);
             w.dispatch(0, EP_INHERENT, Act { id: act_id(0, 1, 1), script: 0 });
@@ -351,7 +351,7 @@ pub fn run_witness(seed: u64, index: u64) -> Outcome {
             let mut sc = Script::plain();
             sc.eff[0] = Some(EffSpec { kind: EK_TASK, follow_script: 0, n_follow: 0, panic: false, gate: NOGATE });
             let ctx = Ctx::new(ScriptSrc::Table(vec![sc]), 1, seed, 0, false);
-            let w = W::new(ctx, vec![StoreCfg { policy: POL_BLOCK, cap: 16, n_red: 1, n_mw: 0, name: "rsvw".into() }]);
+            let w = W::new(ctx, vec![StoreCfg { policy: POL_BLOCK, cap: 16, n_red: 1, n_mw: 0, name: "rsvw".into(), ctor: 0 }]);
             for k in 0..4 {
                 w.dispatch(0, EP_INHERENT, Act { id: act_id(0, 1, k + 1), script: 0 });
             }
@@ -363,7 +363,7 @@ pub fn run_witness(seed: u64, index: u64) -> Outcome {
         2 => {
             // F3 / C13 C14: drop an iterator that holds an unread item
             let ctx = Ctx::new(ScriptSrc::Table(vec![Script::plain()]), 1, seed, 0, false);
-            let w = W::new(ctx, vec![StoreCfg { policy: POL_BLOCK, cap: 4, n_red: 1, n_mw: 0, name: "rsvw".into() }]);
+            let w = W::new(ctx, vec![StoreCfg { policy: POL_BLOCK, cap: 4, n_red: 1, n_mw: 0, name: "rsvw".into(), ctor: 0 }]);
             let notified = Arc::new(Counter::new());
             let (id, it) = w.add_iter(0, true);
             let _t = w.add_direct_counted(0, true, notified.clone());
@@ -382,7 +382,7 @@ pub fn run_witness(seed: u64, index: u64) -> Outcome {
         _ => {
             // F6 / C13: iter() after the store was stopped never ends
             let ctx = Ctx::new(ScriptSrc::Table(vec![Script::plain()]), 1, seed, 0, false);
-            let w = W::new(ctx, vec![StoreCfg { policy: POL_BLOCK, cap: 4, n_red: 1, n_mw: 0, name: "rsvw".into() }]);
+            let w = W::new(ctx, vec![StoreCfg { policy: POL_BLOCK, cap: 4, n_red: 1, n_mw: 0, name: "rsvw".into(), ctor: 0 }]);
             w.dispatch(0, EP_INHERENT, Act { id: act_id(0, 1, 1), script: 0 });
             w.stop(0, STOP_STOP);
             let (id, it) = w.add_iter(0, false);
